@@ -1407,7 +1407,7 @@ func runChain(sc *Scenario, res *core.Result, logf func(string, ...any)) {
 	if res.Verdict == core.OK {
 		selfIncludeThroughGenerate(sc, res, logf)
 	}
-	if res.Verdict == core.OK {
+	if res.Verdict == core.OK && sc.RunSeed%4 == 0 {
 		manyReadRRThroughInclude(sc, res, logf)
 	}
 }
